@@ -21,7 +21,8 @@
 (*     after RMax, Tombstone -> gone only after CMax, tombstones never come  *)
 (*     back; a successful revive returns the entry, its cascade-deleted     *)
 (*     dependents (pointing at it again) and its memberships of groups that  *)
-(*     still exist; an unobstructed revive succeeds.                         *)
+(*     still exist - for EVERY entry of a multi-entry revive; an            *)
+(*     unobstructed revive succeeds.                                         *)
 (* L2  transcription of server/delete.rs, server/recycle.rs and              *)
 (*     be reap_tombstones: cascade over `refers`, purge_recycled compares    *)
 (*     LAST MODIFICATION with now - RMax, purge_tombstones compares the      *)
@@ -47,11 +48,19 @@ ReviveOk(s, t, h, x) ==
   /\ t.lv[x] = "live"
   /\ \A d \in h.dep[x] : (s.lv[d] = "recycled" /\ s.casc[d] = {x}) => (t.lv[d] = "live" /\ x \in t.refers[d])
   /\ \A g \in h.want[x] : t.lv[g] = "live" => x \in t.member[g]
-\* nothing stands in the way of reviving x: it was not cascade-deleted behind another entry, it still
-\* holds the `refers` it had when it entered the bin (a dependent whose target was deleted afterwards has
-\* lost a mandatory reference and is legitimately refused, see C16) and its name is not used by a live entry
-Unobstructed(s, h, x) == /\ s.casc[x] = {} /\ s.refers[x] = h.rf[x]
-                         /\ \A y \in s.ids \ {x} : ~(s.lv[y] = "live" /\ s.name[y] # "" /\ s.name[y] = s.name[x])
+\* ONE revive operation over the set X of recycled entries (a multi-match revive filter): every entry of
+\* the set is owed its own memberships and dependents
+ReviveOkSet(s, t, h, X) == \A x \in X : s.lv[x] = "recycled" => ReviveOk(s, t, h, x)
+\* nothing stands in the way of reviving the recycled entries X together: none was cascade-deleted behind
+\* an entry outside the set, each still holds the `refers` it had when it entered the bin (a dependent
+\* whose target was deleted afterwards has lost a mandatory reference and is legitimately refused, see
+\* C16), and the names that come back are used neither by a live entry nor twice within the set
+Unobstructed(s, h, X) ==
+  LET Rv == X \cup {d \in s.ids : s.lv[d] = "recycled" /\ s.casc[d] # {} /\ s.casc[d] \subseteq X} IN
+  /\ X # {} /\ \A x \in X : s.lv[x] = "recycled" /\ s.casc[x] \subseteq X /\ s.refers[x] = h.rf[x]
+  /\ \A y \in Rv : s.name[y] # "" =>
+        /\ \A z \in s.ids \ Rv : ~(s.lv[z] = "live" /\ s.name[z] = s.name[y])
+        /\ \A z \in Rv \ {y} : s.name[z] # s.name[y]
 
 \* ----------------------------------- L2 -----------------------------------
 R(st, res) == [st |-> st, res |-> res]
@@ -70,13 +79,19 @@ Delete(s, D0, now) ==
                        !.member = [g \in s.ids |-> @[g] \ all],
                        !.lm = [x \in s.ids |-> IF x \in all \cup touched THEN now ELSE @[x]]], "ok")
 
-Revive(s, x, now) ==
-  LET Rv == {x} \cup {d \in s.ids : s.lv[d] = "recycled" /\ s.casc[d] = {x}}
+\* ONE revive_recycled over the ids X0: the recycled ones among them and every entry cascade-deleted behind
+\* one of them; the memberships to restore are collected PER GROUP over all revived entries (one modify
+\* per group adding every entry whose recycled_directmemberof names it)
+Revive(s, X0, now) ==
+  LET X  == {x \in X0 : s.lv[x] = "recycled"}
+      Rv == X \cup {d \in s.ids : s.lv[d] = "recycled" /\ s.casc[d] # {} /\ s.casc[d] \subseteq X}
       refok == \A y \in Rv : \A v \in s.casc[y] : v \in Rv \/ s.lv[v] = "live"
+      nameok == \A y \in Rv : s.name[y] # "" =>
+                   /\ \A z \in s.ids \ Rv : ~(s.lv[z] = "live" /\ s.name[z] = s.name[y])
+                   /\ \A z \in Rv \ {y} : s.name[z] # s.name[y]
       gs == UNION {s.rdmo[y] : y \in Rv}
-  IN  IF s.lv[x] # "recycled" THEN R([s EXCEPT !.now = now], "ok")
-      ELSE IF ~refok \/ ~(\A y \in Rv : \A z \in s.ids \ Rv : ~(s.lv[z] = "live" /\ s.name[z] # "" /\ s.name[z] = s.name[y]))
-           THEN R(s, "err")
+  IN  IF X = {} THEN R([s EXCEPT !.now = now], "ok")
+      ELSE IF ~refok \/ ~nameok THEN R(s, "err")
       ELSE R([s EXCEPT !.now = now,
                        !.lv = [y \in s.ids |-> IF y \in Rv THEN "live" ELSE @[y]],
                        !.refers = [y \in s.ids |-> IF y \in Rv /\ s.casc[y] # {} THEN s.casc[y] ELSE @[y]],
